@@ -139,6 +139,12 @@ def case_irrep_grid(case):
     lhs = lie.sl2_irrep(A @ B, n)
     ra, rb = lie.sl2_irrep(A, n), lie.sl2_irrep(B, n)
     rhs = ra @ rb
+    if not (np.all(np.isfinite(lhs)) and np.all(np.isfinite(ra)) and np.all(np.isfinite(rb))):
+        bad = ~np.isfinite(ra).reshape(hi - lo, -1).all(axis=1) | ~np.isfinite(lhs).reshape(hi - lo, -1).all(axis=1)
+        i = int(np.argmax(bad))
+        return {"v": [{"key": "irrep/non-finite-image/n=%d" % n,
+                       "msg": "sl2_irrep(., %d) is not finite on integer input, e.g. A=%s (A@B=%s): %d of %d grid points" % (
+                           n, A[i].tolist(), (A[i] @ B[i]).tolist(), int(bad.sum()), hi - lo)}], "t": 3, "o": "nan", "nt": True}
     big = max(float(np.abs(lhs).max()), float(np.abs(rhs).max()), float(np.abs(ra).max()))
     if not big < TWO53:
         raise AssertionError("harness: grid values reach %.3g >= 2^53, float64 is not exact" % big)
@@ -580,6 +586,51 @@ def _cls(A):
     return "zero-entries=" + ("".join(z) or "none")
 
 
+FORM_CONJ = [[[2.0, 0.0, 0.0], [0.0, 1.0, 0.0], [0.0, 0.0, 1.0]],          # B = diag(-4, 1, 1)
+             [[1.0, 0.0, 0.0], [0.0, 1.0, 1.0], [0.0, 0.0, 1.0]],          # a shear: non-diagonal form
+             [[1.0, 1.0, 0.0], [0.0, 2.0, 0.0], [1.0, 0.0, 1.0]],          # generic
+             [[0.0, 1.0, 0.0], [1.0, 0.0, 0.0], [0.0, 0.0, 1.0]]]          # permutation: diag(1, -1, 1)
+
+
+def case_pgl_form(case):
+    """o_to_pgl(., bilinear_form=B) for B = M^T J M and the B-isometries M^-1 S M, S = sl2_to_so21(A).
+    The diagonalising frame of B is only determined up to O(2,1), so only basis-independent facts are
+    demanded: determinant one, identity -> +-I, homomorphism up to sign over all ordered pairs."""
+    from geometry_tools import lie
+    M = np.array(FORM_CONJ[case["form"]])
+    Mi = np.linalg.inv(M)
+    J = np.diag([-1.0, 1.0, 1.0])
+    B = M.T @ J @ M
+    mats = [np.array(x, dtype="float64") for x in int_mats_2x2(case["bound"], (1,))]
+    A = mats[case["i"]]
+    v, t = [], 0
+    S1 = Mi @ np.asarray(lie.sl2_to_so21(A)) @ M
+    assert np.max(np.abs(S1.T @ B @ S1 - B)) < 1e-9 * (1 + np.max(np.abs(S1)) ** 2), "harness: S1 does not preserve B"
+    g1 = guard(v, "o_to_pgl(form)", lambda: np.asarray(lie.o_to_pgl(S1, bilinear_form=B)))
+    t += 2
+    if g1 is None:
+        return {"v": v, "t": t, "o": "exc", "nt": True}
+    tol = 1e-7 * (1 + float(np.max(np.abs(A))) ** 2)
+    if not (np.all(np.isfinite(g1)) and abs(float(np.linalg.det(g1)) - 1.0) <= tol):
+        v.append({"key": "o_to_pgl/form/determinant", "msg": "o_to_pgl(M^-1 sl2_to_so21(%s) M, form=M^T J M) = %s has determinant %.6g (M = %s)" % (fmt(A), fmt(g1), float(np.linalg.det(g1)), fmt(M))})
+        return {"v": v, "t": t, "o": "det", "nt": True}
+    nbad = 0
+    first = None
+    for A2 in mats:
+        S2 = Mi @ np.asarray(lie.sl2_to_so21(A2)) @ M
+        g2 = np.asarray(lie.o_to_pgl(S2, bilinear_form=B))
+        g12 = np.asarray(lie.o_to_pgl(S1 @ S2, bilinear_form=B))
+        t += 3
+        sc = 1e-7 * (1 + float(np.max(np.abs(g1))) * float(np.max(np.abs(g2))))
+        if not (np.max(np.abs(g12 - g1 @ g2)) <= sc or np.max(np.abs(g12 + g1 @ g2)) <= sc):
+            nbad += 1
+            first = first or (A2, g12, g1 @ g2)
+    if nbad:
+        v.append({"key": "o_to_pgl/form/homomorphism-up-to-sign", "msg": "form M^T J M with M = %s: o_to_pgl(S1 S2) = %s != +-o_to_pgl(S1) o_to_pgl(S2) = %s for A1 = %s, A2 = %s (%d partners)" % (
+            fmt(M), fmt(first[1]), fmt(first[2]), fmt(A), fmt(first[0]), nbad)})
+    return {"v": v, "t": t, "o": "%d|%d|%d" % (case["form"], case["i"], nbad), "nt": True}
+
+
 def case_pgl(case):
     from geometry_tools import lie, hyperbolic
     mats = [np.array(x, dtype="float64") for x in int_mats_2x2(case["bound"], tuple(case["dets"]))]
@@ -734,6 +785,11 @@ def run(ctx):
         bound = 2 if q else 3
         n = len(int_mats_2x2(bound, (1, -1)))
         cases = [{"bound": bound, "dets": [1, -1], "i": i} for i in range(n)]
+        n1 = len(int_mats_2x2(2, (1,)))
+        fcases = [{"bound": 2, "form": f, "i": i} for f in range(len(FORM_CONJ)) for i in range(0, n1, 3 if q else 1)]
+        ctx.product("o_to_pgl-forms", "checks.c17:case_pgl_form", fcases,
+                    domains={"forms": "M^T diag(-1,1,1) M for %d matrices M (scaling, shear, generic, permutation)" % len(FORM_CONJ),
+                             "isometries": "M^-1 sl2_to_so21(A) M, A over all det-1 integer matrices in [-2,2], all ordered pairs"}, chunk=2)
         ctx.product("o_to_pgl", "checks.c17:case_pgl", cases,
                     domains={"alphabet": "all integer 2x2 matrices with entries in [-%d,%d] and det +-1 (%d); recovery for det 1, "
                                          "homomorphism up to sign for every ordered pair" % (bound, bound, n)}, chunk=4)
